@@ -53,7 +53,7 @@ TReset(e) ==
   /\ acc' = [x \in LaneIds |-> <<>>]
   /\ sto' = [x \in LaneIds |-> <<>>]
   /\ nst' = [c \in Calls |-> 0]
-  /\ last' = [op |-> "init", kind |-> e.kind, nl |-> e.nl, qsize |-> e.qsize]
+  /\ last' = [kind |-> e.kind, nl |-> e.nl, op |-> "init", qsize |-> e.qsize]
 
 (* IndexOf must be the routing function: in range, and the lane the calls  *)
 (* with that hash really run on                                            *)
@@ -66,7 +66,7 @@ TIdx(e) ==
 
 (* the index handed to the callee is the index of the lane the call runs on *)
 TStart(e) ==
-  /\ Step([op |-> "start", c |-> e.c])
+  /\ Step([c |-> e.c, op |-> "start"])
   /\ lane[e.c] = e.lane
 
 (* Every goroutine is parked.  A consumer leaving is not logged and is seen  *)
@@ -90,15 +90,15 @@ Consume ==
          [] e.ev = "start"  -> TStart(e)
          [] e.ev = "quiet"  -> TQuiet(e)
          [] e.ev = "run"    -> Step([op |-> "run"])
-         [] e.ev = "stopi"  -> IF stopst = "no" THEN Step([op |-> "stopi", by |-> e.by])
+         [] e.ev = "stopi"  -> IF stopst = "no" THEN Step([by |-> e.by, op |-> "stopi"])
                                ELSE UNCHANGED allvars                      \* Stop again: no-op
          [] e.ev = "stopr"  -> IF stopst = "ing" THEN Step([op |-> "stopr"])
                                ELSE stopst = "done" /\ UNCHANGED allvars  \* a second Stop returning
-         [] e.ev = "inv"    -> Step([op |-> "inv", c |-> e.c, h |-> e.h, fail |-> e.fail, pre |-> e.pre])
+         [] e.ev = "inv"    -> Step([c |-> e.c, fail |-> e.fail, h |-> e.h, op |-> "inv", pre |-> e.pre])
                               
-         [] e.ev = "end"    -> Step([op |-> "end", c |-> e.c])
-         [] e.ev = "ret"    -> Step([op |-> "ret", c |-> e.c, r |-> e.r])
-         [] e.ev = "cancel" -> Step([op |-> "cancel", c |-> e.c])
+         [] e.ev = "end"    -> Step([c |-> e.c, op |-> "end"])
+         [] e.ev = "ret"    -> Step([c |-> e.c, op |-> "ret", r |-> e.r])
+         [] e.ev = "cancel" -> Step([c |-> e.c, op |-> "cancel"])
          [] OTHER -> FALSE
 
 (* A Stop that is parked (it may wait for the lanes) has closed whatever it  *)
@@ -119,13 +119,13 @@ Silent ==
   /\ pos <= Len(TraceLog) /\ TraceLog[pos].ev # "reset"
   /\ UNCHANGED pos
   /\ \/ \E c \in Calls :
-          \/ Step([op |-> "skip", c |-> c])
+          \/ Step([c |-> c, op |-> "skip"])
           \/ \E r \in {"ok", "full", "closed"}, x \in LaneIds :
-               Step([op |-> "enq", c |-> c, r |-> r, l |-> x])
+               Step([c |-> c, l |-> x, op |-> "enq", r |-> r])
      \/ \E x \in LaneIds :
           /\ \E c \in Calls : \/ cw[c] = "called" /\ slot[info[c].h] \in {Unknown, x}
                               \/ cw[c] = "wait" /\ kind = "pchan"
-          /\ Step([op |-> "close", l |-> x])
+          /\ Step([l |-> x, op |-> "close"])
      \/ CloseAll
 
 TraceNext == Consume \/ Silent
